@@ -187,8 +187,8 @@ def _c06_vm_sample(d, tier, coq, build, want=120):
 
 CONFIG = {
     "properties_file": "Properties/C06.v",
-    "proof_files": ["Base/Prelude.v", "Proofs/Stores.v", "Proofs/StoresConc.v", "Proofs/StoresConcOci.v", "Proofs/StoresConcOci2.v", "Proofs/StoresConcFile.v", "Proofs/StoresFile.v", "Proofs/StoresConcFileGraph.v", "Proofs/StoresConcReads.v", "Proofs/StoresFileSpec.v"],
-    "model_files": ["Generated/GC06.v", "Model/Stores.v", "Model/StoresFileSpec.v", "Model/StoresConc.v", "Model/StoresConcOci.v", "Model/StoresConcFile.v"],
+    "proof_files": ["Base/Prelude.v", "Proofs/Stores.v", "Proofs/StoresConc.v", "Proofs/StoresConcOci.v", "Proofs/StoresConcOci2.v", "Proofs/StoresConcFile.v", "Proofs/StoresFile.v", "Proofs/StoresConcFileGraph.v", "Proofs/StoresConcReads.v", "Proofs/StoresFileSpec.v", "Proofs/StoresFileLimit.v"],
+    "model_files": ["Generated/GC06.v", "Model/Stores.v", "Model/StoresFileSpec.v", "Model/StoresFileLimit.v", "Model/StoresConc.v", "Model/StoresConcOci.v", "Model/StoresConcFile.v"],
     "extract": "XC06.v",
     "ml_main": "c06_main.ml",
     "harness": "c06",
